@@ -461,6 +461,15 @@ func Duplicate(selector Selector, duplicateName string, excludeOptions []string)
 				duplicatedBuilder.Options = tools.Filter(duplicatedBuilder.Options, func(option ast.Option) bool {
 					return !tools.StringInListEqualFold(option.Name, excludeOptions)
 				})
+
+				// the factories call the options by name: the copy no longer has the excluded ones
+				for _, factory := range duplicatedBuilder.Factories {
+					for _, call := range factory.OptionCalls {
+						if tools.StringInListEqualFold(call.Name, excludeOptions) {
+							return nil, fmt.Errorf("factory '%s' of %s.%s calls the option '%s', which is excluded from the duplicate '%s'", factory.Name, builder.Package, builder.Name, call.Name, duplicateName)
+						}
+					}
+				}
 			}
 
 			newBuilders = append(newBuilders, duplicatedBuilder)
